@@ -175,6 +175,11 @@ std::string prop_enumerate(const std::string & tier, const std::string & outdir)
         for (size_t al = 0; al < 8; ++al) {
             for (int ci = 0; ci < 4; ++ci) {
                 uint64_t seed = mix64(len * 8 + al, (uint64_t) ci) >> 1;
+                if (ci == 0) {   // crash aid (a memory error inside the CRC code aborts the process): the case being examined
+                    mj::Value cs = mj::Value::object(); cs.set("kind", "buf"); cs.set("len", (long long) len); cs.set("align", (long long) al); cs.set("content", contents[ci]); cs.set("seed", (long long) seed);
+                    mj::Value doc = mj::Value::object(); doc.set("property", "C18"); doc.set("clause", "crash"); doc.set("case", cs);
+                    mj::write_file(outdir + "/current_case.json", mj::dump(doc));
+                }
                 std::string r = check_buf(len, al, contents[ci], seed, true);
                 ++evals;
                 if (len >= 9) ++nt;
@@ -194,6 +199,7 @@ std::string prop_enumerate(const std::string & tier, const std::string & outdir)
         ++evals; ++nt;
         if (!r.empty()) { mj::Value cs = mj::Value::object(); cs.set("kind", "hdr"); cs.set("seed", (long long) seed); add_v("hdr", r, cs); }
     }
+    ::remove((outdir + "/current_case.json").c_str());
     res.set("evaluations", evals);
     res.set("distinct_nontrivial", nt);
     res.set("exhaustive", true);
